@@ -176,3 +176,87 @@ func inflateAll(b []byte) ([]byte, error) {
 	defer r.Close()
 	return io.ReadAll(r)
 }
+
+// ---- background traffic ----------------------------------------------------------------------
+// A provider instance serves many tenants, service providers and users over its lifetime. Checks
+// that build one world per case would never see state that survives a request (caches keyed too
+// coarsely, pooled objects that are not reset, lists reordered in place). withNoise adds an
+// unrelated service provider, user and completed request to a spec; runNoise serves a round of
+// valid requests for them (under another Host) before the request under test. Everything that
+// belongs to the noise actors carries noiseMark, so a reply to the request under test that
+// contains it has leaked foreign state.
+
+const noiseMark = "noisemark9q"
+
+func withNoise(spec world.Spec) world.Spec {
+	sp := world.SPSpec{
+		AppID: "app-" + noiseMark, EntityID: "https://" + noiseMark + "-sp.example/metadata", AuthnRequestsSigned: A, KeyNames: []string{"sp-c"},
+		ACS: []world.ACSSpec{acs(world.BindRedirect, "https://"+noiseMark+"-sp.example/acs/redirect", "5", A), acs(world.BindPost, "https://"+noiseMark+"-sp.example/acs/post", "3", A)},
+		SLO: []world.SLOSpec{{Binding: world.BindPost, Location: "https://" + noiseMark + "-sp.example/slo"}},
+	}
+	u := world.UserSpec{UserID: "uid-" + noiseMark, LoginName: "login-" + noiseMark + "@users.example", Email: noiseMark + "@mail.example", FullName: "Full " + noiseMark, GivenName: "G" + noiseMark,
+		Surname: "S" + noiseMark, Username: "user-" + noiseMark, UserIDAttr: "id-" + noiseMark,
+		Custom: []world.CustomAttr{{Name: "custom-" + noiseMark, FriendlyName: "f-" + noiseMark, NameFormat: "urn:" + noiseMark, Values: []string{"v1-" + noiseMark, "v2-" + noiseMark}}}}
+	out := spec
+	out.SPs = append(append([]world.SPSpec(nil), spec.SPs...), sp)
+	out.Users = append(append([]world.UserSpec(nil), spec.Users...), u)
+	out.Requests = append(append([]world.RequestSpec(nil), spec.Requests...),
+		world.RequestSpec{ID: "req-" + noiseMark + "-post", AppID: sp.AppID, RelayState: "rs-" + noiseMark, ACS: sp.ACS[1].Location, Binding: world.BindPost, AuthRequestID: "_a-" + noiseMark, UserID: u.UserID, Done: true},
+		world.RequestSpec{ID: "req-" + noiseMark + "-redirect", AppID: sp.AppID, RelayState: "rs2-" + noiseMark, ACS: sp.ACS[0].Location, Binding: world.BindRedirect, AuthRequestID: "_b-" + noiseMark, UserID: u.UserID, Done: true},
+		world.RequestSpec{ID: "req-" + noiseMark + "-pending", AppID: sp.AppID, RelayState: "rs3-" + noiseMark, ACS: sp.ACS[1].Location, Binding: world.BindPost, AuthRequestID: "_c-" + noiseMark, UserID: u.UserID})
+	if out.Apps != nil {
+		apps := map[string]string{}
+		for k, v := range out.Apps {
+			apps[k] = v
+		}
+		apps[sp.AppID] = sp.EntityID
+		out.Apps = apps
+	}
+	return out
+}
+
+// runNoise serves one round of requests of the noise actors. The spec must come from withNoise.
+func runNoise(w *world.World, spec world.Spec) {
+	host := noiseMark + ".idp.example"
+	do := func(r obs.HTTPReq) { r.Host = host; obs.Do(w.Handler, r) }
+	var sp world.SPSpec
+	for _, s := range spec.SPs {
+		if strings.Contains(s.EntityID, noiseMark) {
+			sp = s
+		}
+	}
+	if sp.EntityID == "" {
+		return
+	}
+	wr := func(n *xt.Node) []byte { return xt.Write(n, plainStyle.W) }
+	do(obs.HTTPReq{Method: "GET", Path: spec.IdP.Route("metadata")})
+	a := spsim.NewAuthnReq("_n1-"+noiseMark, sp.EntityID)
+	hr, _, _ := spsim.Encode(spec.IdP.Route("sso"), wr(a.Tree(plainStyle)), spsim.Transport{Binding: "redirect", Plus: true, Encoding: A, RelayState: "rs-" + noiseMark}, nil)
+	do(hr)
+	a2 := spsim.NewAuthnReq("_n2-"+noiseMark, sp.EntityID)
+	a2.ProtocolBinding = "urn:example:unlisted"
+	hr, _, _ = spsim.Encode(spec.IdP.Route("sso"), wr(a2.Tree(plainStyle)), spsim.Transport{Binding: "post", Plus: true, Encoding: A, RelayState: A}, nil)
+	do(hr)
+	do(callbackReq(spec.IdP, "req-"+noiseMark+"-redirect"))
+	do(callbackReq(spec.IdP, "req-"+noiseMark+"-post"))
+	do(callbackReq(spec.IdP, "req-"+noiseMark+"-pending"))
+	l := spsim.NewLogoutReq("_n3-"+noiseMark, sp.EntityID, "user-"+noiseMark)
+	hr, _, _ = spsim.Encode(spec.IdP.Route("slo"), wr(l.Tree(plainStyle)), spsim.Transport{Binding: "post", Plus: true, Encoding: A, RelayState: "rs-" + noiseMark}, nil)
+	do(hr)
+	q := spsim.NewAttrQuery("_n4-"+noiseMark, sp.EntityID, "login-"+noiseMark+"@users.example")
+	hr, _, _ = spsim.Encode(spec.IdP.Route("attribute"), wr(spsim.Envelope(q.QueryTree(plainStyle), "soap")), spsim.Transport{Binding: "soap"}, nil)
+	do(hr)
+	do(obs.HTTPReq{Method: "GET", Path: spec.IdP.Route("certificate")})
+	w.Store.ResetLog()
+}
+
+// noiseLeak reports whether a reply to the request under test carries data of the noise actors.
+func noiseLeak(rep obs.Reply) bool {
+	d := obs.Decode(rep)
+	for _, t := range append(replyTexts(rep, d), lenientDecode(rep.Header.Get("Location"))) {
+		if strings.Contains(t, noiseMark) {
+			return true
+		}
+	}
+	return false
+}
